@@ -21,6 +21,10 @@ structure Sim (F : Fam) (D : Decoder) where
   Inv : F.σ → Prop
   σ_of : F.σ → D.σ
   held : F.σ → List Nat
+  /-- how far "restore" may move the read position back in this state: a lower bound on the
+  position that the runs maintain (the Standard's position arithmetic is on `Nat`) -/
+  back : F.σ → Nat
+  init_back : back F.init = 0
   init_inv : Inv F.init
   init_st : σ_of F.init = D.init
   init_held : held F.init = []
@@ -28,19 +32,21 @@ structure Sim (F : Fam) (D : Decoder) where
   /-- flushing the delayed output -/
   flush : ∀ s o s', Inv s → F.pend s = some (o, s') →
     Inv s' ∧ F.pend s' = none ∧
-    ∀ (rest : List Nat) (p : Nat), ∃ n p', n ≤ 8 ∧ p' + (held s').length = p + (held s).length ∧
+    ∀ (rest : List Nat) (p : Nat), back s ≤ p → ∃ n p', n ≤ 8 ∧ p' + (held s').length = p + (held s).length ∧
+      back s' ≤ p' ∧
       Steps D n ⟨σ_of s, held s ++ rest, p⟩ (o.map Ev.cp) ⟨σ_of s', held s' ++ rest, p'⟩
   /-- one byte -/
   feed : ∀ s b, Inv s → F.pend s = none → b < 256 →
     Inv (F.feed s b).st ∧
-    ∀ (rest : List Nat) (p : Nat), ∃ n p', n ≤ 8 ∧
+    ∀ (rest : List Nat) (p : Nat), back s ≤ p → ∃ n p', n ≤ 8 ∧
       p' + (held (F.feed s b).st).length = p + (held s).length + (if (F.feed s b).unread = true then 0 else 1) ∧
+      back (F.feed s b).st ≤ p' ∧
       Steps D n ⟨σ_of s, held s ++ b :: rest, p⟩
         ((F.feed s b).out.map Ev.cp ++
           errEv (p + (held s).length + (if (F.feed s b).unread = true then 0 else 1)) (F.feed s b).err)
         ⟨σ_of (F.feed s b).st, held (F.feed s b).st ++ (if (F.feed s b).unread = true then b :: rest else rest), p'⟩
   /-- the end of the stream (flush, end-of-stream errors, until the Standard's decoder says `finished`) -/
-  fin : ∀ s, Inv s → ∀ p, ∃ n c', n ≤ 16 ∧
+  fin : ∀ s, Inv s → ∀ p, back s ≤ p → ∃ n c', n ≤ 16 ∧
     Steps D n ⟨σ_of s, held s, p⟩ (ref F s [] (p + (held s).length)) c' ∧ stepFn D c' = none
 
 /-- decide every `if` whose condition `omega` can settle from the context -/
@@ -48,31 +54,31 @@ macro "ifs_omega" : tactic => `(tactic| simp (disch := omega) only [if_pos, if_n
 
 variable {F : Fam} {D : Decoder}
 
-theorem flush_steps (S : Sim F D) (s : F.σ) (hi : S.Inv s) (X : List Nat) (p : Nat) :
+theorem flush_steps (S : Sim F D) (s : F.σ) (hi : S.Inv s) (X : List Nat) (p : Nat) (hbk : S.back s ≤ p) :
     ∃ (s1 : F.σ) (ev : List Ev) (n p1 : Nat), S.Inv s1 ∧ F.pend s1 = none ∧ F.rank s1 ≤ F.rank s ∧ n ≤ 8 ∧
-      p1 + (S.held s1).length = p + (S.held s).length ∧
+      p1 + (S.held s1).length = p + (S.held s).length ∧ S.back s1 ≤ p1 ∧
       Steps D n ⟨S.σ_of s, S.held s ++ X, p⟩ ev ⟨S.σ_of s1, S.held s1 ++ X, p1⟩ ∧
       ∀ stream pos, ref F s stream pos = ev ++ ref F s1 stream pos := by
   cases hp : F.pend s with
   | none =>
-    exact ⟨s, [], 0, p, hi, hp, Nat.le_refl _, by omega, rfl, .refl _, fun _ _ => rfl⟩
+    exact ⟨s, [], 0, p, hi, hp, Nat.le_refl _, by omega, rfl, hbk, .refl _, fun _ _ => rfl⟩
   | some q =>
     obtain ⟨o, s'⟩ := q
     obtain ⟨hi', hp', hst⟩ := S.flush s o s' hi hp
-    obtain ⟨n, p', hn, hpos, hsteps⟩ := hst X p
-    exact ⟨s', o.map Ev.cp, n, p', hi', hp', F.pend_rank s o s' hp, hn, hpos, hsteps,
+    obtain ⟨n, p', hn, hpos, hbk', hsteps⟩ := hst X p hbk
+    exact ⟨s', o.map Ev.cp, n, p', hi', hp', F.pend_rank s o s' hp, hn, hpos, hbk', hsteps,
       fun stream pos => ref_flush' F s o s' stream pos hp' hp⟩
 
 theorem sim_run (S : Sim F D) : ∀ (stream : List Nat), (∀ b ∈ stream, b < 256) →
-    ∀ (r : Nat) (s : F.σ), F.rank s ≤ r → S.Inv s → ∀ p : Nat,
+    ∀ (r : Nat) (s : F.σ), F.rank s ≤ r → S.Inv s → ∀ p : Nat, S.back s ≤ p →
       ∃ n c', n ≤ 16 * (16 * stream.length + r) + 16 ∧
         Steps D n ⟨S.σ_of s, S.held s ++ stream, p⟩ (ref F s stream (p + (S.held s).length)) c' ∧
         stepFn D c' = none := by
   intro stream
   induction stream with
   | nil =>
-    intro _ r s _ hi p
-    obtain ⟨n, c', hn, hs, hf⟩ := S.fin s hi p
+    intro _ r s _ hi p hbk
+    obtain ⟨n, c', hn, hs, hf⟩ := S.fin s hi p hbk
     refine ⟨n, c', by omega, ?_, hf⟩
     simpa using hs
   | cons b rest ih =>
@@ -81,10 +87,11 @@ theorem sim_run (S : Sim F D) : ∀ (stream : List Nat), (∀ b ∈ stream, b < 
     have hbr : ∀ x ∈ rest, x < 256 := fun x hx => hb x (List.mem_cons_of_mem _ hx)
     induction r using Nat.strongRecOn with
     | ind r ihr =>
-      intro s hr hi p
-      obtain ⟨s1, evF, nF, p1, hi1, hp1, hrk1, hnF, hpos1, hstF, hrefF⟩ := flush_steps S s hi (b :: rest) p
+      intro s hr hi p hbk
+      obtain ⟨s1, evF, nF, p1, hi1, hp1, hrk1, hnF, hpos1, hbk1, hstF, hrefF⟩ :=
+        flush_steps S s hi (b :: rest) p hbk
       obtain ⟨hi2, hfeed⟩ := S.feed s1 b hi1 hp1 hb0
-      obtain ⟨n2, p2, hn2, hpos2, hst2⟩ := hfeed rest p1
+      obtain ⟨n2, p2, hn2, hpos2, hbk2, hst2⟩ := hfeed rest p1 hbk1
       rw [hrefF, ref_cons F s1 b rest _ hp1]
       have hposeq : p1 + (S.held s1).length = p + (S.held s).length := hpos1
       by_cases hu : (F.feed s1 b).unread = true
@@ -92,7 +99,7 @@ theorem sim_run (S : Sim F D) : ∀ (stream : List Nat), (∀ b ∈ stream, b < 
         simp only [hu, if_true, Nat.add_zero] at hpos2 hst2 ⊢
         have hrk2 := F.unread_rank s1 b hu
         have hr2 : F.rank (F.feed s1 b).st ≤ r - 1 := by omega
-        obtain ⟨n3, c', hn3, hst3, hf3⟩ := ihr (r - 1) (by omega) (F.feed s1 b).st hr2 hi2 p2
+        obtain ⟨n3, c', hn3, hst3, hf3⟩ := ihr (r - 1) (by omega) (F.feed s1 b).st hr2 hi2 p2 hbk2
         refine ⟨nF + n2 + n3, c', ?_, ?_, hf3⟩
         · simp only [List.length_cons] at hn3 ⊢; omega
         · rw [hpos2, hposeq] at hst3
@@ -103,7 +110,7 @@ theorem sim_run (S : Sim F D) : ∀ (stream : List Nat), (∀ b ∈ stream, b < 
           simpa [List.append_assoc] using this
       · -- the byte is consumed
         simp only [hu, Bool.false_eq_true, if_false] at hpos2 hst2 ⊢
-        obtain ⟨n3, c', hn3, hst3, hf3⟩ := ih hbr 15 (F.feed s1 b).st (S.rank_le _ hi2) hi2 p2
+        obtain ⟨n3, c', hn3, hst3, hf3⟩ := ih hbr 15 (F.feed s1 b).st (S.rank_le _ hi2) hi2 p2 hbk2
         refine ⟨nF + n2 + n3, c', ?_, ?_, hf3⟩
         · simp only [List.length_cons] at hn3 ⊢; omega
         · rw [hpos2, hposeq] at hst3
@@ -115,7 +122,7 @@ theorem sim_run (S : Sim F D) : ∀ (stream : List Nat), (∀ b ∈ stream, b < 
 Standard's decoder — as the relation `Runs` and as the executable `run` -/
 theorem sim_conforms (S : Sim F D) (bytes : List Nat) (hb : ∀ b ∈ bytes, b < 256) :
     Runs D bytes (ref F F.init bytes 0) ∧ ref F F.init bytes 0 = Spec.Decode.run D bytes := by
-  obtain ⟨n, c', hn, hs, hf⟩ := sim_run S bytes hb 15 F.init (S.rank_le _ S.init_inv) S.init_inv 0
+  obtain ⟨n, c', hn, hs, hf⟩ := sim_run S bytes hb 15 F.init (S.rank_le _ S.init_inv) S.init_inv 0 (by rw [S.init_back]; omega)
   rw [S.init_st, S.init_held] at hs
   simp only [List.nil_append, List.length_nil, Nat.add_zero] at hs
   refine ⟨⟨n, c', hs, hf⟩, ?_⟩
@@ -180,6 +187,33 @@ theorem step_one (D : Decoder) (st : D.σ) (b : Nat) (rest : List Nat) (p : Nat)
   have := Steps.step h (.refl _)
   simpa using this
 
+theorem steps_byte (D : Decoder) {st : D.σ} {b : Nat} {rest : List Nat} {p : Nat} {r : HRes D.σ}
+    (h : D.handler st (some b) = r) (hne : r.act ≠ .finished) :
+    Steps D 1 ⟨st, b :: rest, p⟩ (evsOf r.act (p + 1 - r.restore.length))
+      ⟨r.st, r.restore ++ rest, p + 1 - r.restore.length⟩ := by
+  subst h
+  exact step_one D st b rest p hne
+
+/-- a one-step match (no held bytes before or after) in the form `Sim.feed` asks for -/
+theorem feed_of_stepMatches {σ : Type} (D : Decoder) [DecidableEq D.σ] (σ_of : σ → D.σ) (st : D.σ) (r : FeedRes σ)
+    (b : Nat) (hm : stepMatches σ_of (D.handler st (some b)) r b = true) (rest : List Nat) (p : Nat) :
+    Steps D 1 ⟨st, b :: rest, p⟩
+      (r.out.map Ev.cp ++ errEv (p + (if r.unread = true then 0 else 1)) r.err)
+      ⟨σ_of r.st, (if r.unread = true then b :: rest else rest), p + (if r.unread = true then 0 else 1)⟩ := by
+  unfold stepMatches at hm
+  simp only [Bool.and_eq_true, decide_eq_true_eq] at hm
+  obtain ⟨⟨hst, hres⟩, hact⟩ := hm
+  obtain ⟨hne, hev⟩ := actMatches_sound hact
+  have h1 := step_one D st b rest p hne
+  rw [hst, hres, hev] at h1
+  by_cases hu : r.unread = true
+  · simp only [hu, if_true, List.length_singleton, Nat.add_sub_cancel, List.nil_append, List.length_nil,
+      Nat.add_zero, List.cons_append] at h1 ⊢
+    exact h1
+  · simp only [hu, Bool.false_eq_true, if_false, List.length_nil, Nat.sub_zero, List.nil_append,
+      Nat.add_zero] at h1 ⊢
+    exact h1
+
 theorem step_eof (D : Decoder) (st : D.σ) (p : Nat)
     (hne : (D.handler st none).act ≠ .finished) :
     Steps D 1 ⟨st, [], p⟩ (evsOf (D.handler st none).act (p - (D.handler st none).restore.length))
@@ -199,6 +233,8 @@ def Sim1.toSim {F : Fam} {D : Decoder} [DecidableEq D.σ] (S : Sim1 F D) : Sim F
   Inv := S.Inv
   σ_of := S.σ_of
   held := fun _ => []
+  back := fun _ => 0
+  init_back := rfl
   init_inv := S.init_inv
   init_st := S.init_st
   init_held := rfl
@@ -210,7 +246,7 @@ def Sim1.toSim {F : Fam} {D : Decoder} [DecidableEq D.σ] (S : Sim1 F D) : Sim F
     intro s b hi _ hb
     obtain ⟨hi', hm⟩ := S.feed s b hi hb
     refine ⟨hi', ?_⟩
-    intro rest p
+    intro rest p _
     unfold stepMatches at hm
     simp only [Bool.and_eq_true, decide_eq_true_eq] at hm
     obtain ⟨⟨hst, hres⟩, hact⟩ := hm
@@ -220,12 +256,12 @@ def Sim1.toSim {F : Fam} {D : Decoder} [DecidableEq D.σ] (S : Sim1 F D) : Sim F
     by_cases hu : (F.feed s b).unread = true
     · simp only [hu, if_true, List.length_singleton, Nat.add_sub_cancel, List.nil_append, List.length_nil,
         Nat.add_zero, List.cons_append] at h1 ⊢
-      exact ⟨1, p, by omega, rfl, h1⟩
+      exact ⟨1, p, by omega, rfl, Nat.zero_le _, h1⟩
     · simp only [hu, Bool.false_eq_true, if_false, List.length_nil, Nat.sub_zero, List.nil_append,
         Nat.add_zero] at h1 ⊢
-      exact ⟨1, p + 1, by omega, rfl, h1⟩
+      exact ⟨1, p + 1, by omega, rfl, Nat.zero_le _, h1⟩
   fin := by
-    intro s hi p
+    intro s hi p _
     have hp := S.no_pend s
     have he := S.eof s hi
     simp only [List.length_nil, Nat.add_zero]
